@@ -597,6 +597,13 @@ pub fn spec() -> PropSpec {
         min_counts: &[("lifecycle_recovered", 30)],
       },
       Check {
+        name: "cross-process",
+        rule: "shares produced by one fresh process are recovered by three other fresh processes whose first operation is a recovery (in three consumer orders): the message",
+        gen: |_| vec![json!({})],
+        run: |cx, _| crate::probe::cross_process_check(cx, "C16", "adss-message"),
+        min_counts: &[("cross_process_ok", 3)],
+      },
+      Check {
         name: "length-square",
         rule: "EVERY (message length, coin length) pair with message length 0..=200, coin length 0..=200 and sum <= 340 (t = 2): two independent shares recover the message (a cipher/MAC path that depends on the two lengths together)",
         gen: |_| (0..=200u64).map(|ml| json!({"ml": ml})).collect(),
